@@ -450,14 +450,13 @@ func (p *partition) Subscribe(ctx context.Context, req *client.SubscribeRequest)
 	}
 
 	cancel := make(chan struct{})
-	p.srv.startGoroutine(p.newSubscribeLoop(ctx, groupID, consumerID, reader,
-		stopOffset, ch, errCh, cancel, req.Reverse))
-
 	sub := &subscription{
 		closed: cancel,
 		msgs:   ch,
 		errors: errCh,
 	}
+	p.srv.startGoroutine(p.newSubscribeLoop(ctx, groupID, sub, reader,
+		stopOffset, ch, errCh, cancel, req.Reverse))
 
 	if groupID != "" {
 		p.consumers[groupID] = &groupMember{
@@ -472,7 +471,7 @@ func (p *partition) Subscribe(ctx context.Context, req *client.SubscribeRequest)
 
 // newSubscribeLoop returns a function to be called in a goroutine which starts
 // the subscription loop.
-func (p *partition) newSubscribeLoop(ctx context.Context, groupID, consumerID string,
+func (p *partition) newSubscribeLoop(ctx context.Context, groupID string, sub *subscription,
 	reader commitlog.MessageReader, stopOffset int64, ch chan<- *client.Message, errCh chan<- *status.Status,
 	cancel <-chan struct{}, reverse bool) func() {
 
@@ -481,7 +480,7 @@ func (p *partition) newSubscribeLoop(ctx context.Context, groupID, consumerID st
 		p.increaseSubscriberCount()
 		defer p.decreaseSubscriberCount()
 		if groupID != "" {
-			defer p.removeGroupSubscriber(groupID, consumerID)
+			defer p.removeGroupSubscriber(groupID, sub)
 		}
 
 		headersBuf := make([]byte, 28)
@@ -580,14 +579,17 @@ func (p *partition) newSubscribeLoop(ctx context.Context, groupID, consumerID st
 	}
 }
 
-func (p *partition) removeGroupSubscriber(groupID, consumerID string) {
+// removeGroupSubscriber removes the group's subscriber if it is still the given
+// subscription. A subscription that has been replaced in the meantime, even
+// by one of the same consumer, must not remove its successor.
+func (p *partition) removeGroupSubscriber(groupID string, sub *subscription) {
 	p.consumersMu.Lock()
 	defer p.consumersMu.Unlock()
-	sub, ok := p.consumers[groupID]
+	member, ok := p.consumers[groupID]
 	if !ok {
 		return
 	}
-	if sub.consumerID == consumerID {
+	if member.sub == sub {
 		delete(p.consumers, groupID)
 	}
 }
